@@ -32,8 +32,16 @@ class Universe:
             return xo.Int64 if d is None else xo.Field(xo.Int64, default=d)
 
         leaf_fields = [("a", "n", None), ("v", "n", None)]
+        # fields of dynamic size may declare a default too (a list of another length than the value, a one-element list, a text)
+        self.dyn_defaults = {}
+
+        def dyn(ci, name, typ):
+            dflt = r.choice([None, None, [1.0], [1.0, 2.0], []]) if name == "arr" else r.choice([None, None, "ab", ""])
+            self.dyn_defaults[(ci, name)] = dflt
+            return typ if dflt is None else xo.Field(typ, default=dflt)
+
         # two dynamically sized fields: values of one total size can split it differently (cached offsets of a view go stale)
-        d = {"_xofields": {"a": num(0, "a"), "v": num(0, "v"), "mat": xo.Float64[2, 2], "name": xo.String, "arr": xo.Float64[:], "brr": xo.Int64[:]}}
+        d = {"_xofields": {"a": num(0, "a"), "v": num(0, "v"), "mat": xo.Float64[2, 2], "name": dyn(0, "name", xo.String), "arr": dyn(0, "arr", xo.Float64[:]), "brr": xo.Int64[:]}}
         force = force or {}
         ren0 = {"v": "vee"} if r.random() < 0.5 else {}
         if "ren" in force:
@@ -73,7 +81,7 @@ class Universe:
         self.spec.append(([("s", "n", None), ("mid", k2, 1), ("leaf", k3, 0)], ren2))
         self.classes.append(Top)
         # class 3: a class DERIVED from Leaf that declares its fields again with its own defaults (and its own renaming)
-        d = {"_xofields": {"a": num(3, "a"), "v": num(3, "v"), "mat": xo.Float64[2, 2], "name": xo.String, "arr": xo.Float64[:], "brr": xo.Int64[:]}}
+        d = {"_xofields": {"a": num(3, "a"), "v": num(3, "v"), "mat": xo.Float64[2, 2], "name": dyn(3, "name", xo.String), "arr": dyn(3, "arr", xo.Float64[:]), "brr": xo.Int64[:]}}
         ren3 = {"a": "aye"} if r.random() < 0.5 else {}
         if "ren" in force:
             ren3 = dict(force["ren"][3])
@@ -97,8 +105,16 @@ class Universe:
         for ci, (fields, ren) in enumerate(self.spec):
             out.append(",".join([f"{n}>{ren.get(n, n)}=" + (f"n{self.defaults[(ci, n)]}" if k == "n" else f"{k}{c}") for n, k, c in fields]
                                 # a 2-D array of static shape (default: zeros), two arrays of dynamic shape (no default)
-                                + (["mat>mat=z4", "name>name=a", "arr>arr=a", "brr>brr=a"] if ci in self.leaflike else [])))
+                                + (["mat>mat=z4", "name>name=" + self.dyn_code(ci, "name"), "arr>arr=" + self.dyn_code(ci, "arr"), "brr>brr=a"] if ci in self.leaflike else [])))
         return "univ " + ";".join(out)
+
+    def dyn_code(self, ci, name):
+        """`a`: no declared default; `d<v>/<v>/…`: the declared default (floats by their IEEE bits, texts by their bytes)"""
+        dflt = self.dyn_defaults.get((ci, name))
+        if dflt is None:
+            return "a"
+        xs = dflt.encode("utf-8") if isinstance(dflt, str) else dflt
+        return "d" + ("/".join(str(fbits(x)) for x in xs) or "-")
 
     def pyname(self, ci, xo_name):
         return self.spec[ci][1].get(xo_name, xo_name)
@@ -240,7 +256,18 @@ class Case:
                 # values next to the default (zeros) included: "equal to the default" is exact equality, not closeness
                 kw["mat"] = [[float(r.choice([0, 0, 0, 1, 7, 1e-9, 5e-324])) for _ in range(2)] for _ in range(2)]
             kw["name"] = short_text(r)                # a text of at most 7 bytes: every string occupies 16 bytes
+            nd_, ad_ = U.dyn_defaults.get((ci, "name")), U.dyn_defaults.get((ci, "arr"))
+            if nd_ is not None and r.random() < 0.4:
+                kw["name"] = nd_                      # equal to the declared default
             kw["arr"] = [float(r.choice([r.randint(0, 9), 0, 1e-9])) for _ in range(na)]
+            if ad_ is not None:
+                ch_ = r.random()
+                if ch_ < 0.35:
+                    kw["arr"], na = list(ad_), len(ad_)          # equal to the declared default
+                elif ch_ < 0.6 and len(ad_) == 1:
+                    kw["arr"] = list(ad_) * na                   # the default's number, another length
+                elif ch_ < 0.75 and ad_:
+                    kw["arr"] = (list(ad_) + [3.0, 4.0, 5.0])[:na]   # the default with items appended / cut off
             kw["brr"] = [r.randint(10, 19) for _ in range(4 - na)]
         name = self.new_name()
         line = f"new {name} {ci} {bi} " + " ".join(words)
@@ -1207,10 +1234,45 @@ def run_all(tier, seed, extra=None):
             "samples": [" ; ".join(c[:6])[:300] for c in cases[:3]]}
 
 
+_dc_uid = itertools.count()
+
+
+def dict_corpus(fails, tags):
+    """C19, oracle only (field kinds the model's universes do not have): an array of STATIC shape holding texts (its default cannot be
+    built without arguments, O-41), arrays of dynamic shape with a declared default against values of another length / the default's
+    number repeated (O-40), a text field with a declared default: `from_dict(to_dict(x))` holds the same values, and a field equal to
+    its declared default is not in the dictionary"""
+    xo = common.import_xobjects()
+    uid = next(_dc_uid)
+    K = type(f"HDictCorpus{uid}", (xo.HybridClass,), {"_xofields": {
+        "t": xo.String[2], "n": xo.Int64, "v1": xo.Field(xo.Float64[:], default=[1.0]), "v2": xo.Field(xo.Float64[:], default=[1.0, 2.0]),
+        "s": xo.Field(xo.String, default="abc"), "m": xo.Field(xo.Int64[2, 2], default=[[1, 2], [3, 4]])}})
+    ctx = {"component": "hyb", "corpus": "dict"}
+    for t, v1, v2, sv, m in ((["a", "bb"], [1.0], [1.0, 2.0], "abc", [[1, 2], [3, 4]]), (["", "x"], [1.0, 1.0, 1.0], [1.0, 2.0, 3.0], "abd", [[1, 2], [3, 5]]),
+                             (["é", "q"], [], [2.0], "", [[0, 0], [0, 0]]), (["k", "l"], [2.0], [1.0], "abcd", [[1, 2], [3, 4]])):
+        try:
+            x = K(t=t, n=5, v1=v1, v2=v2, s=sv, m=m)
+            d = x.to_dict()
+            y = K.from_dict(d)
+            got = ([str(y.t[0]), str(y.t[1])], int(y.n), [float(q) for q in y.v1], [float(q) for q in y.v2], str(y.s), [[int(q) for q in row] for row in y.m])
+            if got != (t, 5, v1, v2, sv, m):
+                fails.append(common.Failure("oracle", "C19:dict-roundtrip", f"class with String[2] / defaulted dynamic arrays / defaulted text: from_dict(to_dict(x)) "
+                                            f"holds {got}, x holds {(t, 5, v1, v2, sv, m)}; dictionary keys {sorted(k for k in d if k != '__class__')}", ctx))
+            for key, val, dflt in (("v1", v1, [1.0]), ("v2", v2, [1.0, 2.0]), ("s", sv, "abc"), ("m", m, [[1, 2], [3, 4]])):
+                if (key in d) == (val == dflt):
+                    fails.append(common.Failure("oracle", "C19:default-elision", f"field {key} = {val!r} (declared default {dflt!r}) is "
+                                                f"{'stored in' if key in d else 'missing from'} the dictionary", ctx))
+            tags["dict.corpus.kinds-outside-the-model"] += 1
+        except Exception as ex:
+            fails.append(common.Failure("oracle", "C19:dict-raises:" + type(ex).__name__, f"to_dict / from_dict of a class with String[2] and defaulted dynamic "
+                                        f"fields (v1={v1}, v2={v2}, s={sv!r}): {str(ex)[:160]}", ctx))
+
+
 def run_dict(tier, seed):
     """C19 on hybrid objects: histories as in run_all, then to_dict / from_dict of every live instance"""
     r = random.Random(seed * 48611 + 7)
     fails, tags = [], collections.Counter()
+    dict_corpus(fails, tags)
     n_hist = {"quick": 30, "thorough": 4000}[tier]
     lines, expect, ctxs = [], [], []
     for hi in range(n_hist):
